@@ -186,6 +186,9 @@ func init() {
 			delete(p.subst, full)
 			return nil, true
 		},
+		"vThorough": func(p *Path, fn *ssa.Function, args []Value) (Value, bool) {
+			return p.ts().Bool(p.run.thorough), true
+		},
 		"vIsSym": func(p *Path, fn *ssa.Function, args []Value) (Value, bool) {
 			return p.ts().Bool(!p.run.concrete), true
 		},
@@ -298,6 +301,9 @@ func (p *Path) doAssert(c *Term, label string) {
 	st := r.stat(label)
 	st.Checked++
 	r.obligations++
+	if r.concrete && c.IsConst() {
+		p.obs = append(p.obs, obsRec{"assert:" + label, c.Val})
+	}
 	if c.IsTrue() {
 		st.Trivial++
 		r.discharged++
